@@ -20,3 +20,23 @@ func init() {
 		ruleTablesKeys(c, r)
 	})
 }
+
+func init() {
+	register("C08", func(c *Ctx, r *Report) {
+		r.Decides("the encoder escapes every rune the decoders interpret inside a key value, the splitter tracks escapes inside keys, no non-injective normaliser is applied on the way to the string, keys are formatted in sorted order, and both parsers share one splitter and one key/value parser.",
+			"the full inverse law StringToStructuredPath∘PathToString = id for all paths (value-level).")
+		ruleEscape(c, r)
+		ruleLossy(c, r)
+		ruleElemKeysSorted(c, r)
+		r.Rule("R-MAPRANGE-RETURN", "a range over a map returns at most one distinct result from inside the loop (otherwise the result depends on iteration order)", 0)
+		ruleMapRangeReturnFile(c, r, "ygot", "pathstrings.go")
+	})
+	register("C09", func(c *Ctx, r *Report) {
+		r.Decides("ComparePaths/comparePathElem return only the absorbing relation (Disjoint) from inside their loops; no helper in util/gnmi.go returns two different results from inside a range over a map; wildcard \"*\" is honoured on the sides that may carry it.",
+			"agreement of every helper with the set denotation for all path pairs (value-level); swap symmetry beyond the structural clauses.")
+		ruleAbsorb(c, r)
+		r.Rule("R-MAPRANGE-RETURN", "a range over a map returns at most one distinct result from inside the loop (otherwise the result depends on iteration order)", 3)
+		ruleMapRangeReturnFile(c, r, "util", "gnmi.go")
+		ruleWildcards(c, r)
+	})
+}
